@@ -115,11 +115,11 @@ def describe(b, uni, hist):
     return s
 
 
-def corrupt_one(hists, unis, bad_steps, want_ring, rng):
+def corrupt_one(hists, unis, bad_steps, want_ring, rng, skip_unis=()):
     """Change one recorded answer of a step that is otherwise accepted; returns (h, k, i, new) 1-based."""
     cand = []
     for hi, h in enumerate(hists):
-        if unis[h["u"] - 1]["ring"] != want_ring:
+        if unis[h["u"] - 1]["ring"] != want_ring or h["u"] in skip_unis:
             continue
         for ki, st in enumerate(h["steps"]):
             if (hi + 1, ki + 1) in bad_steps or not st["ans"]:
@@ -193,7 +193,8 @@ def run(ctx):
 
     # ---- 3b. binding self-test: corrupt one accepted ring answer and one accepted mod answer
     chists = json.loads(json.dumps(hists))
-    c1 = corrupt_one(chists, unis, bad_steps, True, rng)
+    shared = {i + 1 for i, c in enumerate(res["cols"]) if c}   # there another owner of a shared point is not "wrong"
+    c1 = corrupt_one(chists, unis, bad_steps, True, rng, shared)
     c2 = corrupt_one(chists, unis, bad_steps, False, rng)
     if c1 is None or c2 is None:
         raise Inconclusive("self-test: no accepted step to corrupt (ring %s, mod %s)" % (c1, c2))
